@@ -24,6 +24,8 @@ type question struct {
 	flags         questionFlags
 	finishMsgSend chan struct{}        // closed after attempting to send the Finish message
 	called        [][]capnp.PipelineOp // paths to called clients
+	returned      bool                 // Return received with results; p may not have resolved yet
+	result        capnp.Ptr            // valid if returned is set
 	paramCaps     map[exportID]uint32  // export references placed in the call's params
 }
 
@@ -119,6 +121,19 @@ func (q *question) PipelineSend(ctx context.Context, transform []capnp.PipelineO
 		return capnp.ErrorAnswer(s.Method, disconnected("connection closed")), func() {}
 	}
 	defer q.c.tasks.Done()
+	if q.returned && !q.marked(transform) {
+		// The Return has been received and the capabilities in it have
+		// been set up for the pipelined calls made until then: paths that
+		// had been called are embargoed if they lead back here.  p just
+		// has not resolved yet because it waits for this call to be
+		// started.  No call on this path is in flight, so there is no
+		// embargo on it: the remote vat would bounce the call to a local
+		// capability while later calls go there directly and overtake
+		// it.  Use the result instead.
+		result := q.result
+		q.c.mu.Unlock()
+		return pipelineResultClient(result, transform).SendCall(ctx, s)
+	}
 	// Mark this transform as having been used for a call ASAP.
 	// q's Return could be received while q2 is being sent.
 	// Don't bother cleaning it up if the call fails because:
@@ -254,6 +269,20 @@ func (c *Conn) newPipelineCallMessage(msg rpccp.Message, tgt questionID, transfo
 	return nil
 }
 
+// pipelineResultClient returns the capability that transform designates
+// in result.  The returned client is borrowed from the result's message.
+func pipelineResultClient(result capnp.Ptr, transform []capnp.PipelineOp) *capnp.Client {
+	p, err := capnp.Transform(result, transform)
+	if err != nil {
+		return capnp.ErrorClient(err)
+	}
+	iface := p.Interface()
+	if p.IsValid() && !iface.IsValid() {
+		return capnp.ErrorClient(fail("not a capability"))
+	}
+	return iface.Client()
+}
+
 func (q *question) PipelineRecv(ctx context.Context, transform []capnp.PipelineOp, r capnp.Recv) capnp.PipelineCaller {
 	ans, finish := q.PipelineSend(ctx, transform, capnp.Send{
 		Method:   r.Method,
@@ -273,6 +302,17 @@ func (q *question) PipelineRecv(ctx context.Context, transform []capnp.PipelineO
 		go returnAnswer(r.Returner, ans, finish)
 		return ans
 	}
+}
+
+// marked reports whether a call with the promised answer transform has
+// been sent.  The caller must be holding onto q.c.mu.
+func (q *question) marked(xform []capnp.PipelineOp) bool {
+	for _, x := range q.called {
+		if transformsEqual(x, xform) {
+			return true
+		}
+	}
+	return false
 }
 
 // mark adds the promised answer transform to the set of pipelined
